@@ -1,6 +1,7 @@
 """C11 — Aave borrow/withdraw limits and risk figures (demeter/aave/market.py, core.py)."""
 from decimal import Decimal
 from pyvc.api import proof, native, exact, spec
+from .common import REJECT
 from .aave_common import *   # noqa
 from .aave_common import AAVE_CONTRACTS, SHAPES, SHAPES_WITH_SUPPLY, SHAPES_WITH_SUPPLY_OF_OP, SHAPES_WITH_DEBT, world, INF
 
@@ -42,7 +43,7 @@ def po_borrow_accepted(S):
     ok = True
     try:
         m.borrow(w.op, amount)
-    except Exception:
+    except REJECT:
         ok = False
     if ok:
         S.cover("accepted")
@@ -70,7 +71,7 @@ def po_borrow_within(S):
     ok = True
     try:
         m.borrow(w.op, amount)
-    except Exception:
+    except REJECT:
         ok = False
     S.check("accepted", ok)
 
@@ -85,7 +86,7 @@ def po_borrow_beyond(S):
     ok = True
     try:
         m.borrow(w.op, amount)
-    except Exception:
+    except REJECT:
         ok = False
     S.check("rejected", not ok)
 
@@ -100,7 +101,7 @@ def po_withdraw_accepted(S):
     ok = True
     try:
         m.withdraw(w.op, amount)
-    except Exception:
+    except REJECT:
         ok = False
     if ok:
         S.cover("accepted")
@@ -121,7 +122,7 @@ def po_withdraw_limits(S):
     ok = True
     try:
         m.withdraw(w.op, amount)
-    except Exception:
+    except REJECT:
         ok = False
     if amount <= have and (debt == 0 or after_num >= debt * Decimal("1.0001")):
         S.cover("inside")
@@ -141,7 +142,7 @@ def po_change_collateral(S):
     ok = True
     try:
         m.change_collateral(w.op, flag)
-    except Exception:
+    except REJECT:
         ok = False
     if ok:
         S.cover("accepted")
@@ -167,7 +168,7 @@ def po_preserve(S):
             m.supply(w.op, amount, coll_flag)
         else:
             m.repay(w.op, amount)
-    except Exception:
+    except REJECT:
         ok = False
     if ok:
         S.cover("accepted")
@@ -188,7 +189,7 @@ def po_max_borrow(S):
     ok = True
     try:
         m.borrow(w.op, mx)
-    except Exception:
+    except REJECT:
         ok = False
     S.check("helper-amount-accepted", ok)
 
@@ -210,6 +211,6 @@ def po_max_withdraw(S):
         ok = True
         try:
             m.withdraw(w.op, mx)
-        except Exception:
+        except REJECT:
             ok = False
         S.check("helper-amount-accepted", ok)
